@@ -13,9 +13,11 @@ AccTyps(cfg, p) ==
   ELSE {"absent", p.typ, TypOfDef(Carried(cfg, p))}
 NormP(cfg, p) == [present |-> TRUE, wild |-> FALSE, typs |-> AccTyps(cfg, p), def |-> Carried(cfg, p), doc |-> p.doc]
 Gone == [present |-> FALSE, wild |-> FALSE, typs |-> {}, def |-> "absent", doc |-> "absent"]
+\* a return entry that is neither described nor typed in the docstring has nothing to be written with: it is legitimately absent
+RetWritten(cfg, r) == r.doc # "absent" \/ (r.typ # "absent" /\ (cfg.et \/ cfg.style = "google")) \/ Carried(cfg, r) # "absent"
 Norm(cfg, i) == [raises |-> "no", wild |-> FALSE, doc |-> i.doc,
                  params |-> [k \in 1..Len(i.params) |-> NormP(cfg, i.params[k])],
-                 ret |-> IF i.ret = NoRet THEN Gone ELSE NormP(cfg, i.ret)]
+                 ret |-> IF i.ret = NoRet \/ ~RetWritten(cfg, i.ret) THEN Gone ELSE NormP(cfg, i.ret)]
 
 \* ---- named deviations of the as-built code (exact wrong outcomes) ------------------------------------
 \* Each has an abstract trigger and either the exact wrong outcome or (wild) "anything may come back for inputs of
@@ -27,6 +29,7 @@ Devs == {"numpydoc_no_types_unparsable",   \* wild : numpydoc with emit_types=Fa
          "str_default_with_dot_truncated", \* wild : a string default containing a full stop is cut at it ("~/data/x.txt" -> "~/data/x", ".txt" lands in the description)
          "none_default_as_str",            \* exact: a None default comes back as the string '(None)'
          "empty_str_default_lost",         \* exact: an empty-string default is dropped and 'Defaults to' stays in the description
+         "google_undescribed_return_misread", \* wild (return entry): Google, a return entry with a type but no description: `int:` is read as the description
          "gn_return_default_forced"}       \* exact: Google/NumPy give the return entry a zero/None default once any parameter has one
 
 \* the type is written into the docstring (Google always writes it)
@@ -69,13 +72,16 @@ AsBuilt(en, cfg, i) ==
       forced == "gn_return_default_forced" \in en /\ cfg.style \in {"google", "numpydoc"} /\ i.ret # NoRet
                 /\ \E k \in 1..Len(i.params) : ParsedDefault(cfg, i.params[k])
       ret0 == IF i.ret = NoRet THEN Gone ELSE AsBuiltP(en, cfg, i.ret)
-      ret1 == IF forced THEN [ret0 EXCEPT !.def = ZeroOf(i.ret.typ)]
-              ELSE IF retOnly THEN [ret0 EXCEPT !.wild = TRUE] ELSE ret0
+      gUndesc == "google_undescribed_return_misread" \in en /\ cfg.style = "google" /\ i.ret # NoRet /\ i.ret.doc = "absent"
+      ret1 == IF ~(i.ret = NoRet) /\ ~RetWritten(cfg, i.ret) THEN Gone
+              ELSE IF gUndesc \/ retOnly THEN [ret0 EXCEPT !.wild = TRUE]
+              ELSE IF forced THEN [ret0 EXCEPT !.def = ZeroOf(i.ret.typ)] ELSE ret0
       fired == UNION {FiredP(en, cfg, p) : p \in ents}
                \cup (IF wildNp THEN {"numpydoc_no_types_unparsable"} ELSE {})
                \cup (IF wildDot THEN {"str_default_with_dot_truncated"} ELSE {})
                \cup (IF forced THEN {"gn_return_default_forced"} ELSE {})
                \cup (IF retOnly THEN {"gn_return_only_mangled"} ELSE {})
+               \cup (IF gUndesc THEN {"google_undescribed_return_misread"} ELSE {})
   IN [out |-> [raises |-> "no", wild |-> wildNp \/ wildCode \/ wildDot, doc |-> i.doc,
                params |-> [k \in 1..Len(i.params) |->
                              AsBuiltPk(en, cfg, i.params[k], \E j \in 1..(k - 1) : ParsedDefault(cfg, i.params[j]))],
